@@ -1,0 +1,75 @@
+//! Verification hooks (cargo feature `verif`, off by default).
+//!
+//! Thin wrappers that expose private pieces of the server (event processor, state restorer)
+//! to an external in-process harness. Nothing in here is used by production code.
+
+use crate::server::Senders;
+use crate::server::autoalloc::{QueueId, QueueParameters};
+use crate::server::restore::StateRestorer;
+use crate::server::state::StateRef;
+use crate::server::tako_events::UpstreamEventProcessor;
+use std::path::Path;
+use tako::WorkerId;
+use tako::control::ServerRef;
+use tako::events::EventProcessor;
+use tako::gateway::TaskSubmit;
+use tako::resources::ResourceDescriptor;
+
+pub fn make_event_processor(state_ref: StateRef, senders: Senders) -> Box<dyn EventProcessor> {
+    Box::new(UpstreamEventProcessor::new(state_ref, senders))
+}
+
+pub struct RestoredQueue {
+    pub queue_id: QueueId,
+    pub params: QueueParameters,
+    pub worker_resources: Option<ResourceDescriptor>,
+}
+
+/// First half of the restore steps of `start_server`: load the journal.
+pub struct LoadedJournal {
+    restorer: StateRestorer,
+    pub server_uid: String,
+    pub job_id_counter: u32,
+    pub worker_id_counter: WorkerId,
+    pub queue_id_counter: QueueId,
+    pub truncate_size: Option<u64>,
+}
+
+pub fn load_journal(journal_path: &Path) -> crate::Result<LoadedJournal> {
+    let mut restorer = StateRestorer::default();
+    restorer.load_event_file(journal_path)?;
+    let server_uid = restorer.take_server_uid();
+    Ok(LoadedJournal {
+        server_uid,
+        job_id_counter: restorer.job_id_counter(),
+        worker_id_counter: restorer.worker_id_counter(),
+        queue_id_counter: restorer.queue_id_counter(),
+        truncate_size: restorer.truncate_size(),
+        restorer,
+    })
+}
+
+/// Second half of the restore steps of `start_server`: restore jobs and queues into a fresh state.
+/// The returned task submits have to be passed to `ServerRef::add_new_tasks` by the caller.
+pub fn restore_state(
+    loaded: LoadedJournal,
+    state_ref: &StateRef,
+    server_ref: &ServerRef,
+) -> crate::Result<(Vec<TaskSubmit>, Vec<RestoredQueue>)> {
+    let mut state = state_ref.get_mut();
+    state.restore_state(&loaded.restorer);
+    let (tasks, queues) = loaded
+        .restorer
+        .restore_jobs_and_queues(&mut state, server_ref)?;
+    Ok((
+        tasks,
+        queues
+            .into_iter()
+            .map(|q| RestoredQueue {
+                queue_id: q.queue_id,
+                params: *q.params,
+                worker_resources: q.worker_resources,
+            })
+            .collect(),
+    ))
+}
